@@ -1,16 +1,18 @@
 """C03 - typed values: acceptance, canonical form, equality, ordering"""
 from props import comps_types as T
+from props import comps_types2 as T2
 
 PID = "C03"
 LEVEL = "proof"
 
 
 def components():
-    return [T.IntStore(), T.Dec64Store(), T.Dec64Next(), T.BoolStore(), T.ValCmp(), T.ValSort(), T.RangeCheck()]
+    return [T.IntStore(), T.Dec64Store(), T.Dec64Next(), T.BoolStore(), T.ValCmp(), T.ValSort(), T.RangeCheck(),
+            T2.EnumStore(), T2.BitsStore(), T2.BinStore(), T2.StrLenStore(), T2.UnionStore(), T2.Cmp2(), T2.Sort2()]
 
 
 def oracles_():
-    return [T.RfcStoreOracle(), T.Dec64ExactBuf()]
+    return [T.RfcStoreOracle(), T.Dec64ExactBuf(), T2.SourceIndep(), T2.Types2Rfc()]
 
 
 MANIFEST = {
@@ -18,10 +20,30 @@ MANIFEST = {
             "store succeeds iff the string is in the lexical language and the denoted value is in the value space/ranges "
             "(int_store_iff_lexical, dec64_scale), canonical forms are RFC 7950 canonical and idempotent, equality iff equal "
             "canonical strings, the sort callback is a strict total order; defects of the code are carried by the model with "
-            "refutation witnesses. Tie: differential runs of the extracted model against lyd_value_validate/lyd_new_term/"
-            "lyd_value_compare/sorted insertion (T2, exhaustive over short strings), RFC oracle as search.",
+            "refutation witnesses. Properties_C03_types2.v: the same for enumeration (store iff declared name, sort = strict "
+            "total order by descending value), bits (store iff white-space separated declared names without repetition, "
+            "canonical string = names in position order with single spaces, idempotent, equal bitmaps iff equal canonical "
+            "strings, memcmp order), binary (decode(encode d) = d, RFC 4648 texts accepted and canonical, length counted on "
+            "the octets, idempotent; equality iff canonical REFUTED on non-zero pad bits), string length (counted in "
+            "characters: utf8len = number of ly_checkutf8 steps) and union (first accepting member, canonical string "
+            "idempotent, equality iff canonical within one member, REFUTED across members, sort = strict total order). "
+            "Tie: differential runs of the extracted models against lyd_value_validate/lyd_new_term/lyd_value_compare/"
+            "sorted insertion (T2, exhaustive over short strings), RFC oracles as search. The last sentence of the property "
+            "(source independence) is checked by the SourceIndep oracle (search, no proof): one lexical value of 33 "
+            "restricted types (all built-in types incl. identityref, leafref, instance-identifier, empty, typedef chains, "
+            "unions, and the ietf-inet-types / ietf-yang-types derived types) is offered as leaf, list key and leaf-list "
+            "through XML, JSON string and literal, lyd_new_term, lyd_new_list, lyd_new_path value / key predicate / "
+            "leaf-list predicate, lyd_find_path, lyd_value_validate, lyd_change_term, a schema default compiled on the fly, "
+            "lyd_dup_single and a LYB round trip; all must agree on the verdict and on the canonical string except for the "
+            "format-specific rules written down in SourceIndep.expect() with their RFC sections.",
     "note": "Modelled C: ly_parse_int/uint (strtoll model), lyplg_type_parse_dec64, decimal64 printing, lyplg_type_validate_range, "
-            "boolean store. Not modelled: string/binary/bits/enum/union/identityref/leafref/inet/date types (covered only through "
-            "the API round-trip and validation oracles of C01/C02), LYB value encoding.",
-    "technique": "Coq proof over hand-written model + differential correspondence (extracted OCaml vs C) + RFC oracle",
+            "boolean store; lyplg_type_store_enum/sort_enum, bits_str2bitmap/bitmap2items/items2canon/compare/sort, "
+            "binary_base64_newlines/validate/decode/encode + store/compare/sort, ly_utf8len + string length check (UTF-8 "
+            "check from Utf8.v), union_find_type/compare_union/sort_union over int/enum/string members. Not modelled "
+            "(searched by SourceIndep / Types2Rfc only): patterns (C18), identityref, leafref, instance-identifier, "
+            "inet/yang derived types, LYB value encoding, hints handling of the JSON parser. Trusted for SourceIndep: the "
+            "exception list of its judge (RFC 7951 6.1/6.3/6.9 literals, 6.8/6.11 and RFC 7950 9.10.3/9.13.2 prefixes, "
+            "RFC 7951 6.10 unions, RFC 7950 9.2.1 hex/octal defaults, white-space-only XML content, non-YANG characters).",
+    "technique": "Coq proof over hand-written model + differential correspondence (extracted OCaml vs C) + RFC oracle + "
+                 "cross-source agreement oracle",
 }
